@@ -2,7 +2,7 @@
 //! the real crate through the public API.
 
 use crate::alloc;
-use crate::elems::{self, Elem, Hint, ItemObs, Obs, Plain, Probe, Stamp, Token};
+use crate::elems::{self, Elem, Hint, ItemObs, NoClone, Obs, Plain, Probe, Stamp, Token};
 use crate::sim::{self, SimAbort, SimCfg, SimOutcome};
 use orx_concurrent_iter::*;
 use serde::{Deserialize, Serialize};
@@ -47,10 +47,13 @@ pub enum Kind {
     VecZst,
     /// `[Token; N]::into_con_iter()` (consuming)
     ArrayZst,
+    /// `Vec<NoClone>::con_iter()`: elements that are not `Clone`; the iterator is cloned through
+    /// a shared reference with plain method-call syntax (C19)
+    SliceNoClone,
 }
 
 impl Kind {
-    pub const ALL: [Kind; 20] = [
+    pub const ALL: [Kind; 21] = [
         Kind::Slice,
         Kind::SliceRef,
         Kind::VecRef,
@@ -71,6 +74,7 @@ impl Kind {
         Kind::StampSlice,
         Kind::VecZst,
         Kind::ArrayZst,
+        Kind::SliceNoClone,
     ];
     pub fn is_iter(self) -> bool {
         matches!(
@@ -113,6 +117,7 @@ impl Kind {
                 | Kind::PlainSlice
                 | Kind::PlainIter
                 | Kind::StampSlice
+                | Kind::SliceNoClone
         )
     }
     pub fn is_adaptor(self) -> bool {
@@ -1051,7 +1056,56 @@ where
     C::Item: Obs,
     M: Fn() -> C,
 {
-    let mut private: Option<C> = None;
+    run_ops_multi_with(orig, make, &|o: &C| Holder::Owned(o.clone()), tid, ops, ctx)
+}
+
+/// What `.clone()` on a shared iterator returned: an iterator of its own, or (if the type is not
+/// `Clone` for this element type and method resolution silently fell back to cloning the
+/// reference, seeded change C19-r2) just another reference to the original.
+pub enum Holder<'x, C> {
+    Owned(C),
+    Shared(&'x C),
+}
+
+impl<C> Holder<'_, C> {
+    fn get(&self) -> &C {
+        match self {
+            Holder::Owned(c) => c,
+            Holder::Shared(c) => c,
+        }
+    }
+}
+
+pub trait IntoHolder<'x, C> {
+    fn hold(self) -> Holder<'x, C>;
+}
+
+impl<'x, C> IntoHolder<'x, C> for C {
+    fn hold(self) -> Holder<'x, C> {
+        Holder::Owned(self)
+    }
+}
+
+impl<'x, C> IntoHolder<'x, C> for &'x C {
+    fn hold(self) -> Holder<'x, C> {
+        Holder::Shared(self)
+    }
+}
+
+fn run_ops_multi_with<'x, C, M, K>(
+    orig: &'x C,
+    make: &M,
+    clone_it: &K,
+    tid: usize,
+    ops: &[Op],
+    ctx: &Ctx,
+) where
+    C: ConcurrentIter,
+    C::Item: Obs,
+    M: Fn() -> C,
+    K: Fn(&'x C) -> Holder<'x, C>,
+{
+    let mut private: Option<Holder<'x, C>> = None;
     let mut serial = 0u32;
     let mut start = 0usize;
     let mut i = 0usize;
@@ -1062,7 +1116,7 @@ where
             let seg = &ops[start..i];
             let stopped = seg.contains(&Op::Stop);
             match &private {
-                Some(p) => run_ops(p, tid, seg, ctx),
+                Some(p) => run_ops(p.get(), tid, seg, ctx),
                 None => run_ops(orig, tid, seg, ctx),
             }
             if i == ops.len() || stopped {
@@ -1087,9 +1141,9 @@ where
                     CUR_ITER.with(|c| c.set(id));
                     call(ctx, tid, kind, 0, || {
                         created = Some(if marker == Op::UseClone {
-                            orig.clone()
+                            clone_it(orig)
                         } else {
-                            make()
+                            Holder::Owned(make())
                         });
                         Res::Unit
                     });
@@ -1366,6 +1420,35 @@ pub fn execute(cfg: &RunCfg, run_no: u32) -> RunRecord {
                 drive(cfg, arr.into_con_iter())
             }
             with_array!(n, mk, body, cfg)
+        }
+        Kind::SliceNoClone => {
+            let data: Vec<NoClone> = (0..n as u32)
+                .map(|i| NoClone {
+                    id: i,
+                    payload: elems::payload_of(seed, i as u64),
+                })
+                .collect();
+            rec.base_addr = data.as_ptr() as usize;
+            rec.elem_size = std::mem::size_of::<NoClone>();
+            let slice: &[NoClone] = &data;
+            let it: ConIterOfSlice<'_, NoClone> = slice.con_iter();
+            // deliberately NOT generic over the iterator type: `o.clone()` below is resolved for
+            // the concrete type, exactly as in client code that holds a `&ConIterOfSlice<T>`
+            let o = drive_with(cfg, it, |itr, t, ops, ctx| {
+                run_ops_multi_with(
+                    itr,
+                    &|| slice.con_iter(),
+                    &|o: &ConIterOfSlice<'_, NoClone>| IntoHolder::hold(o.clone()),
+                    t,
+                    ops,
+                    ctx,
+                )
+            });
+            rec.source_intact = data
+                .iter()
+                .enumerate()
+                .all(|(i, e)| e.id as usize == i && e.payload == elems::payload_of(seed, i as u64));
+            o
         }
         Kind::VecZst => {
             let data: Vec<Token> = (0..n).map(|_| Token).collect();
